@@ -80,3 +80,42 @@ def cases(tier, rng=None):
         out.append(dict(label='PoloidalAdvection.step %s' % ('explicit' if explicit else 'implicit'), struct=None,
                         key=A + '::PoloidalAdvection.step', contracts=C))
     return out
+
+
+# ---------------------------------------------------------------------------------------------------------------------
+# PoloidalAdvection.__init__: the state step() starts from.  Points = [theta nodes, r nodes] of the caller's grid, eight work
+# arrays of shape (n_theta, n_r), interpolator and spline on the (theta, r) spline spaces given, scheme / tolerance / boundary
+# flags and the constants object as passed.  Verified on the mechanical backward slice on those attributes
+# (vf/func_slice.py): the dropped statements build _shapedQ, _max_loops and the per-z potential splines _phiSplines (a list
+# comprehension of Spline2D(...) of symbolic length); Spline2D's constructor is ASSUMED not to change its arguments.
+# ---------------------------------------------------------------------------------------------------------------------
+WORKA = ['_drPhi_0', '_dqPhi_0', '_drPhi_k', '_dqPhi_k', '_endPts_k1_q', '_endPts_k1_r', '_endPts_k2_q', '_endPts_k2_r']
+ATTRS = ['_points', '_nPoints', '_interpolator', '_spline', '_constants', '_explicit', '_TOL', '_nulEdge'] + WORKA
+ASL = A + '#slice:PoloidalAdvection.__init__:' + ','.join('self.' + a for a in ATTRS) + ':Spline2D'
+
+
+def init_case():
+    two = dict(abstract=True, params_order=['self', 'basis1', 'basis2'], requires=[], ensures=[], modifies=[],
+               creates={'_basis1': ('expr', 'basis1'), '_basis2': ('expr', 'basis2')})
+    C = {SI + '::SplineInterpolator2D.__init__': two, SPL + '::Spline2D.__init__': two}
+    ens = ['len(self._points) == 2 and self._points[0] is eta_vals[1] and self._points[1] is eta_vals[0]',
+           'self._nPoints[0] == len(eta_vals[1]) and self._nPoints[1] == len(eta_vals[0])',
+           'self._interpolator._basis1 is splines[0] and self._interpolator._basis2 is splines[1]',
+           'self._spline._basis1 is splines[0] and self._spline._basis2 is splines[1]',
+           'self._constants is constants and self._explicit == explicitTrap and self._TOL == tol and self._nulEdge == nulEdge']
+    ens += ['shape(self.%s)[0] == len(eta_vals[1]) and shape(self.%s)[1] == len(eta_vals[0])' % (w, w) for w in WORKA]
+    # the work arrays are eight different arrays (the kernels write them independently)
+    ens += ['self.%s is not self.%s' % (WORKA[i], WORKA[j]) for i in range(8) for j in range(i + 1, 8)]
+    C[ASL + '::PoloidalAdvection.__init__'] = dict(
+        params={'self': {'__class__': ASL + '::PoloidalAdvection'}, 'eta_vals': 'list4arr1',
+                'splines': ('list', [{'__class__': SPL + '::BSplines'}, {'__class__': SPL + '::BSplines'}]),
+                'constants': CONSTS, 'nulEdge': 'bool', 'explicitTrap': 'bool', 'tol': 'float'},
+        requires=[], modifies=[], ensures=ens)
+    return dict(label='PoloidalAdvection.__init__', struct=None, key=ASL + '::PoloidalAdvection.__init__', contracts=C)
+
+
+_step_cases = cases
+
+
+def cases(tier, rng=None):
+    return _step_cases(tier, rng) + [init_case()]
